@@ -240,12 +240,32 @@ def gen_mixture(repo, out):
     write_if_changed(os.path.join(out, "GenMixture.v"), t.render(HEADER.format(extra=" GenSpecies"), "GenMixture"))
 
 
+QBLOCKS = {
+    "_q00_jit": ["Q11"], "_q01_jit": ["Q11", "Q12"], "_q02_jit": ["Q11", "Q12", "Q13"],
+    "_q03_jit": ["Q11", "Q12", "Q13", "Q14"], "_q11_jit": ["Q11", "Q12", "Q13", "Q22"],
+    "_q12_jit": ["Q11", "Q12", "Q13", "Q14", "Q22", "Q23"],
+    "_q13_jit": ["Q11", "Q12", "Q13", "Q14", "Q15", "Q22", "Q23", "Q24"],
+    "_q22_jit": ["Q11", "Q12", "Q13", "Q14", "Q15", "Q22", "Q23", "Q24", "Q33"],
+    "_q23_jit": ["Q11", "Q12", "Q13", "Q14", "Q15", "Q16", "Q22", "Q23", "Q24", "Q25", "Q33", "Q34"],
+    "_q33_jit": ["Q11", "Q12", "Q13", "Q14", "Q15", "Q16", "Q17", "Q22", "Q23", "Q24", "Q25", "Q26", "Q33", "Q34", "Q35", "Q44"],
+    "_qhat00_jit": ["Q11", "Q22"], "_qhat01_jit": ["Q11", "Q12", "Q22", "Q23"],
+    "_qhat11_jit": ["Q11", "Q12", "Q13", "Q22", "Q23", "Q24", "Q33"],
+}
+
+
+def gen_transport(repo, out):
+    t = Translator(os.path.join(repo, "src/minplascalc/functions_transport.py"), "functions_transport.py")
+    for fn, qs in QBLOCKS.items():
+        t.function_qblock(fn, fn.strip("_").replace("_jit", ""), qs)
+    write_if_changed(os.path.join(out, "GenTransport.v"), t.render(HEADER.format(extra=" GenSpecies RefEnergy"), "GenTransport"))
+
+
 def gen_effects(repo, out):
     import effects
     write_if_changed(os.path.join(out, "GenEffects.v"), effects.generate(repo))
 
 
-TARGETS = {"mixture": gen_mixture, "effects": gen_effects, "species": gen_species, "radiation": gen_radiation, "speciesio": gen_speciesio}
+TARGETS = {"transport": gen_transport, "mixture": gen_mixture, "effects": gen_effects, "species": gen_species, "radiation": gen_radiation, "speciesio": gen_speciesio}
 FILES = {"effects": "GenEffects.v", "speciesio": "GenSpeciesIO.v", "species": "GenSpecies.v", "radiation": "GenRadiation.v", "mixture": "GenMixture.v", "transport": "GenTransport.v"}
 
 if __name__ == "__main__":
